@@ -5,6 +5,8 @@
   Clause checklist at the end.
 -/
 import Qfx.Lemmas.CodecScan
+import Qfx.Lemmas.CodecOps
+import Qfx.Lemmas.CodecParseD
 open Qfx Qfx.Spec
 
 /-- "tag order list vs tag lookup map: two views of the same field set that must stay in step" —
@@ -228,6 +230,33 @@ theorem C10_parse_build (fx : Fixes) (ops : List MOp) (hp : ∀ op ∈ ops, op.p
       · have e : tv :: t9 :: t35 :: (pre ++ [t10]) = (tv :: t9 :: t35 :: pre) ++ [t10] := by simp
         rw [e, List.getLast?_append]; simp [hwm.tag10]
 
+/-- the same through a parser WITH dictionaries (transport and/or application) that define no repeating group (`NoGroupTag` for every
+    tag) and do not list CheckSum as a header field: parsing the bytes of `build` yields exactly the written TagValue list. -/
+theorem C10_parse_build_dict_nogroups (fx : Fixes) (d : Dicts) (hng : ∀ t, NoGroupTag d t) (hh10 : isHeaderField d 10 = false)
+    (ops : List MOp) (hp : ∀ op ∈ ops, op.proper ∧ op.wire) (m : Message)
+    (hrun : runMOps ops Message.new = .ok m)
+    (h8 : (alFind m.header.lookup 8).isSome = true) (h35 : (alFind m.header.lookup 35).isSome = true)
+    (bytes : Bytes) (m' : Message) (hbuild : m.build Fixes.cur = .ok (bytes, m')) (hsmall : bytes.length < 9223372036854775808) :
+    ∃ (L : List TagValue) (p : Message), bytes = wireOf L ∧ parseMessage fx d bytes = .ok p ∧ p.fields = L ∧
+      p.bytes fx = .ok (bytes, p) := by
+  obtain ⟨hb, hw⟩ := runMOps_wired ops _ m Built.new Wired.new hp hrun
+  cases hf8 : alFind m.header.lookup 8 with
+  | none => rw [hf8] at h8; cases h8
+  | some f8 =>
+    cases hf35 : alFind m.header.lookup 35 with
+    | none => rw [hf35] at h35; cases h35
+    | some f35 =>
+      obtain ⟨l, hl⟩ := hb.ph.owned 8 f8 hf8
+      subst hl
+      obtain ⟨tv, rest, hl, ht⟩ := hb.ph.head 8 l hf8
+      subst hl
+      have hone := (hb.ph.special 8 _ hf8 tv (by simp) (Or.inl ht)).1
+      rw [hone] at hf8
+      obtain ⟨t9, t35, pre, t10, hbytes, hwm, hbl⟩ := build_wire m hb hw tv f35 hf8 hf35 bytes m' hbuild hsmall
+      refine ⟨tv :: t9 :: t35 :: (pre ++ [t10]), ndMessageD d tv t9 t35 pre t10, hbytes, ?_, rfl, ?_⟩
+      · rw [hbytes]; exact parse_wire_D fx tv t9 t35 pre t10 hwm hbl (fun tv _ => hng tv.tag) (hng 10) hh10
+      · rw [hbytes]; rfl
+
 /-- THE MONITOR'S OWN PREDICATE.  The independent tag=value scanner of `Qfx.Spec.Codec` (the one the monitor runs on the
     implementation's output) reads every built message back as exactly the list of TagValues that was written, and its
     well-formedness predicate `wireWF` — 8, 9, 35 first; a single 10, last; no further 8 / 9; BodyLength = bytes between the
@@ -285,6 +314,25 @@ theorem C10_orig_set_over_group_keeps_members :
       = .ok ⟨{ tags := [453], lookup := [(453, .owned [{ tag := 453, value := [48], bytes := [] }, TagValue.zero])], ord := .normal }, none⟩ := by
   rfl
 
+/-- "whatever API calls produced them": EVERY sequence of API calls on a fresh message (setters in any section incl. the special
+    tags anywhere, SetGroup with any template and entries — nested groups included —, Remove, Clear, CopyInto, build) succeeds — no call
+    returns an error, none faults (codec part of C09): the hypothesis `runMOps ops Message.new = .ok m` of the theorems above is
+    always met. -/
+theorem C10_api_total (ops : List MOp) : ∃ m, runMOps ops Message.new = .ok m := by
+  obtain ⟨m, h, _⟩ := runMOps_total ops Message.new MOK.new
+  exact ⟨m, h⟩
+
+/-- the same on any message the (fixed) parser returns, whatever bytes and dictionaries it was parsed from: setters over parsed
+    fields (which write through into `Message.fields`), SetGroup, Remove, Clear, CopyInto and rebuilding never fail and never fault. -/
+theorem C10_api_total_parsed (d : Dicts) (w : Bytes) (p : Message) (hp : parseMessage Fixes.cur d w = .ok p) (ops : List MOp) :
+    ∃ m, runMOps ops p = .ok m := by
+  obtain ⟨m, h, _⟩ := runMOps_total ops p (parse_MOK d w p hp)
+  exact ⟨m, h⟩
+
+/-- `RepeatingGroup.Write` always succeeds and starts with the count field -/
+theorem C10_write_total (t : Tag) (tmpl : List Item) (es : List (List GFld)) :
+    ∃ tvs, writeGroup t tmpl es = .ok (countTV t es.length :: tvs) := writeGroup_total t tmpl es
+
 /-! ## not (yet) theorems: kept as full statements, checked on every run by the monitor (Qfx.Spec.monBuild) and the correspondence -/
 
 /-- the whole monitor (scanner-level clauses RELATIVE TO THE ABSTRACT MESSAGE `a` that the operations describe: each set
@@ -309,8 +357,9 @@ example : ∃ m, runFOps [.set (TagValue.init 58 [97]), .remove 58, .set (TagVal
    "header before body before trailer"                             C10_build_sections, C10_message_invariant
    "CheckSum last"                                                 C10_build_wf (bytes); C10_trailer_checksum_last
    "BodyLength equals the byte count … CheckSum equals the sum"    C10_build_wf (bytes); C10_length_total_accounting, C10_cook_values
-   "Parsing those bytes yields the same fields and values"         C10_parse_build (no dictionary; monitor clauses reparse_ok / reparse_same_fields for all modes)
+   "Parsing those bytes yields the same fields and values"         C10_parse_build (no dictionary), C10_parse_build_dict_nogroups (dictionaries without groups); monitor clauses reparse_ok / reparse_same_fields for all modes
    "a copied message serialises identically to its source"         C10_copy_identical (message level), C10_copy_writes_same,
                                                                    C10_copy_length_total_same (section level, also parsed sources)
    scanner-level well-formedness of the whole output               C10_build_scans_wf (wireWF, scan = written fields); relative to Abs: C10_build_wf_full
-   op-order independence ("whatever API calls produced them")      C10_write_history_independent -/
+   op-order independence ("whatever API calls produced them")      C10_write_history_independent
+   every API call sequence succeeds (no error, no fault)           C10_api_total, C10_api_total_parsed, C10_write_total -/
